@@ -10,7 +10,9 @@
      the table's write footprints to the running code (which iteration produced which entry).
      A second build with `schedule(runtime)` injected explores other iteration-to-thread assignments
      (OMP_SCHEDULE static,1 / dynamic,1 / guided); thorough adds the Fibonacci-heap configuration, full ASan+UBSan,
-     and a clang++-14 -fsanitize=thread (libomp + Archer) build whose reports are attached to the evidence.
+     and more inputs everywhere.  A clang++-14 -fsanitize=thread (libomp + Archer) build of the routine harness runs in
+     BOTH tiers (quick: every routine once at 8 threads); a report with a tapkee frame is a failure; without libomp /
+     libarcher.so the leg is skipped with a recorded reason.
 Oracle: results identical across thread counts / schedules / repetitions, as the property states.
 """
 import concurrent.futures
@@ -56,7 +58,10 @@ ROUTINE_OF_REGION = {   # region function -> harness routine(s)
     "compute_diffusion_matrix": ["diff"], "triangulate": ["tri"], "matrix_from_callback": ["cli"],
     "linear_weight_matrix": ["wlin"], "tangent_weight_matrix": ["wtan"], "hessian_weight_matrix": ["whes"],
 }
-EMB_METHODS = ["isomap", "lisomap", "mds", "lmds", "dm", "klle", "kltsa", "hlle", "npe", "lltsa"]
+# all 20 methods of the public API (randomised ones run on seeded streams: std::srand + verif_shuffle_generator)
+EMB_METHODS = ["isomap", "lisomap", "mds", "lmds", "dm", "klle", "kltsa", "hlle", "npe", "lltsa",
+               "le", "lpp", "kpca", "pca", "spe", "rp", "fa", "tsne", "ms", "passthru"]
+ARCHER = os.environ.get("VERIF_C15_ARCHER", "/usr/lib/llvm-14/lib/libarcher.so")
 
 _SUMMARY = {}
 
@@ -605,7 +610,12 @@ def emb_one(ctx, runner, p, threads):
     ref = outs[0]
     rh = ref["hashes"][0]
     ry = parse_dense(ref["vals"][rh])
+    d = 1 + max([c for (_, c) in ry] or [0])          # columns the method actually returned (passthru: D)
     rg = gram(ry, N, d)
+    nobs = int(ref.get("nobs", "0") or 0)
+    ctx.extra.setdefault("eigenproblems_observed_per_embed_call", {})[m] = nobs
+    if nobs == 0:
+        ctx.stat("emb:no-eigenproblem-on-this-path:" + m)      # the 1e-10 leg on the pre-matrix does not apply
     rp = parse_dense(ref["pres"].get(rh, "-"))
     for T, o, line in zip(threads, outs, lines):
         ctx.count("emb %s N=%d seed=%s T=%d" % (m, N, p["seed"], T), nontrivial=T >= 2, n=2)
@@ -666,7 +676,7 @@ def sched_tree(ctx):
                 dp = os.path.join(dst, os.path.relpath(sp, vlib.REPO))
                 os.makedirs(os.path.dirname(dp), exist_ok=True)
                 txt = open(sp, errors="replace").read()
-                if "pragma omp" in txt:
+                if "pragma omp" in txt or "_Pragma" in txt:
                     def inject(m):
                         nonlocal n
                         if "schedule" in m.group(0) or not re.search(r"\bfor\b", m.group(0)):
@@ -674,6 +684,14 @@ def sched_tree(ctx):
                         n += 1
                         return m.group(0).rstrip() + " schedule(runtime)"
                     txt = re.sub(r"^[ \t]*#[ \t]*pragma[ \t]+omp[^\n]*", inject, txt, flags=re.M)
+
+                    def inject2(m):
+                        nonlocal n
+                        if "schedule" in m.group(1) or not re.search(r"\bfor\b", m.group(1)):
+                            return m.group(0)
+                        n += 1
+                        return '_Pragma("omp%s schedule(runtime)")' % m.group(1)
+                    txt = re.sub(r'_Pragma\(\s*"omp([^"]*)"\s*\)', inject2, txt)
                 with open(dp, "w") as fh:
                     fh.write(txt)
     open(os.path.join(dst, ".done"), "w").write(str(n))
@@ -724,10 +742,22 @@ def tsan_run(ctx, binary, quick=False):
 
 
 def tsan_lines(ctx, binary, lines):
-    archer = "/usr/lib/llvm-14/lib/libarcher.so"
+    archer = ARCHER
+    if not os.path.exists(archer):
+        # without Archer TSan does not see libomp's barriers and reports false races in tapkee frames: never judge
+        ctx.extra["tsan"] = {"skipped": "OpenMP-aware TSan tool %s not found; ThreadSanitizer leg not run" % archer}
+        ctx.stat("tsan-skipped-no-archer")
+        return
     env = {"TSAN_OPTIONS": "halt_on_error=0:report_signal_unsafe=0:exitcode=0:ignore_noninstrumented_modules=1",
-           "OMP_TOOL_LIBRARIES": archer if os.path.exists(archer) else ""}
+           "OMP_TOOL_LIBRARIES": archer}
+    # the binary must start (libomp present) before its silence means anything
+    rc0, out0, err0 = ctx.run_impl(binary, [lines[0][1]], env=env, timeout=600)
+    if not out0 or not out0[0].startswith("ok"):
+        ctx.extra["tsan"] = {"skipped": "the TSan build does not run in this sandbox (rc=%s): %s" % (rc0, (err0 or "")[-300:])}
+        ctx.stat("tsan-skipped-binary-does-not-run")
+        return
     reports = []
+    failed_runs = []
     for routine, line in lines:
         rc, out, err = ctx.run_impl(binary, [line], env=env, timeout=600)
         ctx.stat("tsan-runs")
@@ -747,7 +777,9 @@ def tsan_lines(ctx, binary, lines):
             ctx.stat("tsan-reports-outside-tapkee", len(races))
         if not out or not out[0].startswith("ok"):
             ctx.stat("tsan-run-failed")
-    ctx.extra["tsan"] = {"runs": len(lines), "archer": os.path.exists(archer), "reports_in_tapkee": reports,
+            failed_runs.append(line)
+    ctx.extra["tsan"] = {"runs": len(lines), "archer": True, "reports_in_tapkee": reports,
+                         "failed_runs": failed_runs,
                          "compiler": "clang++-14 -fsanitize=thread -fopenmp (libomp.so.5, libarcher.so)"}
 
 
@@ -867,6 +899,17 @@ def correspond(ctx):
     if "asan" not in runners:
         return
 
+    # ---- coverage obligation: every region of the table is exercised by a harness routine (footprint + differential)
+    cover = {}
+    for g in (_SUMMARY.get("regions") or []):
+        routines = [r for r in ROUTINE_OF_REGION.get(g["func"], []) if region_for(r) is not None and region_for(r)["func"] == g["func"]]
+        cover[g["name"]] = routines
+        if not routines:
+            ctx.broken("coverage:region-without-routine:" + g["func"], "coverage c15 (region %s has no harness routine)" % g["name"],
+                       "the parallel region in %s (%s:%s) is in the table but no harness routine runs it: it gets no footprint, "
+                       "differential or ThreadSanitizer run (add a routine to harness/c15_omp.cpp and ROUTINE_OF_REGION)" % (
+                           g["func"], g["file"], g["line"]))
+    ctx.extra["region_coverage"] = cover
     # ---- the model itself, and the table against the running code
     model_selftest(ctx)
     if translator_ok:
